@@ -226,15 +226,6 @@ Proof.
       constructor; auto.
 Qed.
 
-Lemma run_records c evs t b :
-  Forall (fun x => r_act x = action_of (r_out x) /\ r_at x <= r_resp x \/ r_act x = action_of (r_out x))
-         (o_trace (run c t b evs)).
-Proof.
-  apply run_forall with (J := fun _ => True) (Inv := fun _ _ => True); auto.
-  - intros. split; auto. destruct (step_fields _ _ _ _ _ _ _ _ H1) as (_ & _ & Ho & Ha & _). right. congruence.
-  - apply Forall_forall. auto.
-Qed.
-
 Lemma run_acts c evs t b : Forall (fun x => r_act x = action_of (r_out x)) (o_trace (run c t b evs)).
 Proof.
   apply run_forall with (J := fun _ => True) (Inv := fun _ _ => True); auto.
